@@ -232,9 +232,111 @@ def r28c(ctx, run):
               sfn.file, wl[0]["ln"] if wl else sfn.ln, "the import worklist must loop until it is empty")
 
 
+def r28d(ctx, run):
+    """containment of paths is decided component by component: `Path::is_sub_dir_of` (the test behind "this import is outside the module and the
+    working directory") is evaluated from its source on sample pairs and compared with component-wise prefix - a textual prefix test accepts the sibling
+    directory `proj-private` as lying inside `proj`"""
+    from symint import SymInterp
+    from absint import Obj, Term, Variant, Panic, CannotEstablish
+    NM = "hir/src/common/names.rs"
+    cands = [f for f in ctx.syn.fns_in(NM) if f.qual.endswith("is_sub_dir_of") and f.body is not None and not f.in_test]
+    if len(cands) != 1:
+        raise LookupError("impl SubDir for Path: is_sub_dir_of (%d)" % len(cands))
+    fn = cands[0]
+
+    class PS(str):
+        pass
+
+    class Comps(list):
+        path = ""
+
+    def comps(pth):
+        out = Comps((["/"] if str(pth).startswith("/") else []) + [c for c in str(pth).split("/") if c])
+        out.path = str(pth)
+        return out
+
+    def resolver(path):
+        last = path.rsplit("::", 1)[-1]
+        c = [f for f in ctx.syn.fns_in(NM) if f.body is not None and f.qual.rsplit("::", 1)[-1] == last and not f.in_test]
+        return c[0] if len(c) == 1 else None
+
+    class PI(SymInterp):
+        def default_method(self, recv, m, args, e):
+            if isinstance(recv, PS):
+                if m == "components":
+                    return comps(recv)
+                if m in ("to_string_lossy", "to_str", "as_os_str", "display", "to_string"):
+                    return str(recv)
+                if m == "starts_with" and isinstance(args[0], PS):
+                    a_, b_ = comps(recv), comps(args[0])
+                    return list(a_[:len(b_)]) == list(b_)
+                if m == "strip_prefix":
+                    a_, b_ = comps(recv), comps(args[0])
+                    return PS("/".join(a_[len(b_):])) if list(a_[:len(b_)]) == list(b_) else None
+            if isinstance(recv, Comps):
+                if m == "as_path":
+                    return PS(recv.path)
+                if m == "clone":
+                    c = Comps(recv)
+                    c.path = recv.path
+                    return c
+            if isinstance(recv, list):
+                if m == "filter":
+                    return [x for x in recv if self.call_closure(args[0], [x]) is not False]
+                if m == "next":
+                    return recv.pop(0) if recv else None
+                if m == "all":
+                    return all(self.call_closure(args[0], [x]) is True for x in list(recv))
+            if isinstance(recv, str) and not isinstance(recv, PS):
+                if m == "starts_with":
+                    return recv.startswith(args[0])
+                if m in ("as_ref", "as_str", "to_string", "into_owned", "to_lowercase") :
+                    return recv.lower() if m == "to_lowercase" else recv
+                if m == "len":
+                    return len(recv)
+            if m == "is_some_and":
+                return False if recv is None else self.call_closure(args[0], [recv]) is True
+            return super().default_method(recv, m, args, e)
+
+        def bind(self, p_, v, env):
+            if p_.get("k") in ("p_ts", "p_path", "p_struct") and str(p_.get("p", "")).startswith("Component::") and isinstance(v, str):
+                kind = p_["p"].rsplit("::", 1)[-1]
+                # the sample paths are unix paths: a root and normal components, no prefix
+                return {"Prefix": False, "RootDir": v == "/", "Normal": v != "/", "CurDir": v == ".", "ParentDir": v == ".."}.get(kind, False)
+            return super().bind(p_, v, env)
+
+        def eval(self, e, env):
+            if e["k"] in ("ref",):
+                return self.eval(e["e"], env)
+            if e["k"] == "un" and e.get("op") in ("*", "&"):
+                return self.eval(e["e"], env)
+            return super().eval(e, env)
+    subs = ["/x/proj/a.capy", "/x/proj", "/x/proj-private/secret.capy", "/x/pro/a.capy", "/x/projx", "/y/proj/a.capy", "/x/proj/sub/a.capy", "/x", "/x/proj2/a.capy", "/x/Proj/a.capy"]
+    bases = ["/x/proj", "/x", "/x/proj/sub"]
+    bad = None
+    n = 0
+    for b in bases:
+        for sb in subs:
+            n += 1
+            want = list(comps(sb)[:len(comps(b))]) == list(comps(b))
+            it = PI(resolver=resolver, macros={"matches": lambda i, e, env: False})
+            try:
+                got = it.run_fn(fn, {"self": PS(sb), fn.param_names()[1]: PS(b)})
+            except (Panic, CannotEstablish) as c:
+                got = "cannot establish: %s" % getattr(c, "what", c)
+            if got is not want and bad is None:
+                bad = (sb, b, got, want)
+    run.check(bad is None, fn.site(), "is_sub_dir_of agrees with component-wise containment on %d sample pairs" % n, "Path::is_sub_dir_of", "containment", fn.file, fn.ln,
+              "is_sub_dir_of(`%s`, `%s`) is %s but the path is %s the base directory component by component: %s" % (
+                  bad[0], bad[1], bad[2], "inside" if bad and bad[3] else "NOT inside",
+                  "an import from a sibling directory whose name merely starts with the working directory's name is accepted" if bad and not bad[3] else
+                  "files of the module / working directory are refused") if bad else "")
+
+
 def rules(ctx):
     return [
         Rule("R28.a", "every import registration is preceded by its complete guard list; resolved paths are the checked ones", 12, r28a),
         Rule("R28.b", "hir::lower runs against the real file system in every non-test caller", 2, r28b),
+        Rule("R28.d", "path containment (import outside the module and the working directory) is decided component by component", 1, r28d),
         Rule("R28.c", "each file is parsed once: seen-test dominates parse in the worklist; stored under its own key; worklist fed and drained", 5, r28c),
     ]
